@@ -380,6 +380,32 @@ theorem probe_memo_irrelevant (reg : Registry) (s : P1) (it : Item) (infos : Lis
     simp only [this, Bool.not_false, Bool.true_or, if_true, Bool.false_eq_true, if_false]
     exact ⟨trivial, hm⟩
 
+/-! ## why the order on versions has to be strict (finding F37)
+
+The theorems above are about versions as naturals under `<`: distinct versions are strictly
+ordered.  `deno_semver`'s precedence is not: two versions that differ in build metadata only
+compare as equal.  The selection fold with a comparison that has a tie keeps the first of the
+equal versions it meets, so its result depends on the order of the list — which for the registry
+map is the iteration order of a `HashMap`.  The repaired code breaks the tie on the build
+metadata, which makes the comparison a strict total order again (the harness interns versions in
+that order, and resolves every configuration on maps with different iteration orders). -/
+
+/-- the selection fold of `resolve_version` over an arbitrary "is better" comparison -/
+def pickWith (better : Nat → Nat → Bool) (l : List Nat) : Option Nat :=
+  l.foldl (fun b v => match b with
+    | none => some v
+    | some x => if better x v then some v else some x) none
+
+/-- precedence that ignores the last bit ("the build metadata"): 2 and 3 tie -/
+def tiedPrecedence (a b : Nat) : Bool := a / 2 < b / 2
+
+theorem tie_makes_selection_order_dependent :
+    pickWith tiedPrecedence [2, 3] ≠ pickWith tiedPrecedence [3, 2] := by decide
+
+/-- with the tie broken the two orders agree -/
+theorem tie_broken_is_order_independent :
+    pickWith (fun a b => a < b) [2, 3] = pickWith (fun a b => a < b) [3, 2] := by decide
+
 /-- non-vacuity: 1.0.0 (old), 1.1.0 (yanked), 1.2.0 (newer than the cutoff); `^1` -/
 def demoInfos : List (Nat × VInfo) :=
   [(2, { yanked := false, createdAt := some 50 }), (0, { yanked := false, createdAt := some 10 }),
